@@ -1553,7 +1553,14 @@ class Quantity(metaclass=QuantityMeta):
 
     def __hash__(self) -> int:
         """hash(self)"""
-        return hash((self.amount, self.unit))
+        # quantities are equal if they have the same value in terms of the
+        # reference unit, so this value has to be hashed, if there is one
+        cls = self.__class__
+        # noinspection PyProtectedMember
+        equiv = self.unit._equiv
+        if cls.ref_unit is None or equiv is None:
+            return hash((self.amount, self.unit))
+        return hash((cls, self.amount * equiv))
 
     def __abs__(self: Q) -> Q:
         """abs(self) -> self.Quantity(abs(self.amount), self.unit)"""
